@@ -436,8 +436,14 @@ pub fn check_program(flows: &[Flow], cfg: Cfg, salt: u64, l: &mut Local) -> Chec
             return Ok(());
         }
     };
-    let sources: Vec<(String, String)> = b.templates.iter().map(|(n, t)| (n.clone(), t.source())).collect();
-    let case = || json!({"kind": "autoescape", "templates": sources, "entry": entry, "context": ctx_to_json(&b.ctx), "global": ctx_to_json(&b.glob), "cfg": format!("{:?}", cfg), "salt": salt});
+    // suffix spelling: in a share of the cases the escaping suffix `.html` of every template name is re-spelled
+    // (upper case, mixed case, no dot, non-ASCII) and configured with autoescape_on; the model is unaffected
+    const SUFFIXES: [&str; 5] = [".html", ".HTML", ".Tpl", "_Email.J2", ".html.\u{c9}x"];
+    let suffix = if matches!(cfg, Cfg::SuffixAfter | Cfg::AllOn | Cfg::Mixed(_) | Cfg::ChildSuper) { SUFFIXES[[0, 0, 0, 1, 2, 3, 4, 1][(splitmix(salt ^ 0x5aff) % 8) as usize]] } else { ".html" };
+    let respell = |x: &str| if suffix == ".html" { x.to_string() } else { x.replace(".html", suffix) };
+    let sources: Vec<(String, String)> = b.templates.iter().map(|(n, t)| (respell(n), respell(&t.source()))).collect();
+    let (entry, main) = (respell(&entry), respell(&main));
+    let case = || json!({"kind": "autoescape", "templates": sources, "entry": entry, "context": ctx_to_json(&b.ctx), "global": ctx_to_json(&b.glob), "cfg": format!("{:?}", cfg), "salt": salt, "suffix": suffix});
     // engine
     let got = match guard(|| -> R {
         let mut t = tera::Tera::new();
@@ -459,7 +465,7 @@ pub fn check_program(flows: &[Flow], cfg: Cfg, salt: u64, l: &mut Local) -> Chec
             if let Err(e) = t.add_raw_templates(others) {
                 return R::Syntax(e.to_string());
             }
-            let src = b.templates[&main].source();
+            let src = sources.iter().find(|s| s.0 == main).map(|s| s.1.clone()).unwrap_or_default();
             return match t.render_str(&src, &tc, flag) {
                 Ok(s) => R::Ok(s),
                 Err(e) => R::Err(e.to_string()),
@@ -468,12 +474,14 @@ pub fn check_program(flows: &[Flow], cfg: Cfg, salt: u64, l: &mut Local) -> Chec
         if cfg == Cfg::SuffixAfter {
             // start with escaping off everywhere, add the templates, then switch the suffix list on
             t.autoescape_on(Vec::<&str>::new());
+        } else if suffix != ".html" {
+            t.autoescape_on(vec![suffix]);
         }
         if let Err(e) = t.add_raw_templates(sources.clone()) {
             return R::Syntax(e.to_string());
         }
         if cfg == Cfg::SuffixAfter {
-            t.autoescape_on(vec![".html"]);
+            t.autoescape_on(vec![suffix]);
         }
         match t.render(&entry, &tc) {
             Ok(s) => R::Ok(s),
@@ -521,7 +529,7 @@ pub fn check_program(flows: &[Flow], cfg: Cfg, salt: u64, l: &mut Local) -> Chec
         if hot_reached {
             l.nontrivial(hash_of(&(sources.clone(), format!("{:?}", cfg))));
         }
-        l.sample(|| json!({"main": b.templates[&main].source().chars().take(500).collect::<String>(), "cfg": format!("{:?}", cfg), "output": m.chars().take(300).collect::<String>()}));
+        l.sample(|| json!({"main": sources.iter().find(|s| s.0 == main).map(|s| s.1.chars().take(500).collect::<String>()), "cfg": format!("{:?}", cfg), "output": m.chars().take(300).collect::<String>()}));
     } else {
         l.label("render:error");
     }
@@ -564,7 +572,7 @@ pub fn run(rep: &Report) {
         }
     }
     let max_hops = if rep.tier == Tier::Thorough { 8 } else { 5 };
-    let n = rep.tier.scale(200_000, 25);
+    let n = rep.tier.scale(600_000, 10);
     run_family(rep, "flows", n, move || (prop::collection::vec(flow(max_hops, true), 1..4), cfg_strategy(), any::<u64>()), |(flows, cfg, salt), l| check_program(flows, *cfg, *salt, l));
     run_family(rep, "flows_without_safe", n / 2, move || (prop::collection::vec(flow(max_hops, false), 1..3), prop_oneof![3 => Just(Cfg::AllOn), 1 => Just(Cfg::ChildSuper), 1 => Just(Cfg::SuffixAfter), 1 => Just(Cfg::RenderStr(true))], any::<u64>()), |(flows, cfg, salt), l| {
         // no safe sources in this family either
